@@ -27,7 +27,7 @@ def judge(res, traces, wd):
         os.remove(path)
     keys = set()
     for t, clauses in out:
-        key = "d=%d " % t["d"] + " ".join("p%d.b%d" % (c["p"], c["k"]) for c in t["h"])
+        key = "d=%d " % t["d"] + " ".join(("p%d.b%d" % (c["p"], c["k"])) if c["p"] else "GENERATE" for c in t["h"])
         keys.add(key)
         for what, detail in clauses:
             res.violation("C15|%s|d=%d" % (what, t["d"]), "partition with %d block(s), calls [%s]: %s (detail %s)" % (
@@ -38,7 +38,7 @@ def judge(res, traces, wd):
 def run(tier):
     res = Result(PID, tier)
     wd = workdir(PID)
-    n = 3 if tier == "quick" else 4
+    n = 3 if tier == "quick" else 4        # (an intermediate generation counts as one call)
     r = tlc("Partition", _cfg(n), wd, coverage=True)
     if r["violated"]:
         raise Machinery("Partition.tla violates %s" % r["violated"])
